@@ -8,15 +8,78 @@ from vlib import core, gen
 PROP = "C06"
 META = {
     "technique": "Coq proof: refinement of an executable model of linkedBuffer/bufferSlice/allocator/done/moveTo to a byte queue via a global inductive invariant (store well-formedness, ownership of every slot as multiset accounting, send buffer, header chains, receive buffer) preserved by every operation; tie: differential execution of the real linkedBuffer pair (real moveToWithoutLock/readMore, heap-backed bufferManager, small classes) against the model on generated op sequences, plus an independent byte-queue oracle",
-    "level_text": "Theorem C06 (= C06_full): for every size-class configuration with positive capacities, every slot count, every op sequence over the whole op set (all writer ops, Flush, all reader ops of any size incl. 0 and more than available, both releases, recycle, the reused reset slice, allocate/overwrite/free by other owners) the model never panics and agrees op by op with the byte queue (bytes, n, Len of both buffers, Peek consumes nothing, oversized reads block), independent of transport (single slice, multi-slice, heap fallback, chains with empty slices, fallback after shm). C06_no_panic, C06_step (the invariant), C06_move_to (transfer lemma), C06_write_bytes / C06_reserve (writer refinement in every allocator state), size-0 regression theorems.",
+    "level_text": "Theorem C06 (= C06_full): for every size-class configuration with positive capacities, every slot count, every op sequence over the whole op set (all writer ops, Flush, all reader ops of any size incl. 0 and more than available, both releases, recycle, the reused reset slice, allocate/overwrite/free by other owners) the model never panics and agrees op by op with the byte queue (bytes, n, Len of both buffers, Peek consumes nothing, oversized reads block), independent of transport (single slice, multi-slice, heap fallback, chains with empty slices, fallback after shm). C06_no_panic, C06_step (the invariant), C06_move_to (transfer lemma), C06_write_bytes / C06_reserve (writer refinement in every allocator state), size-0 regression theorems. Stream.ReleaseReadAndReuse (both directions of a stream pair, Model dstep): C06_reuse_keeps_unread - the call never changes the unread bytes of the releasing stream nor creates unflushed bytes, for every well-formed state, for the swap decision translated from stream.go on every run (Gen/SwitchC06.v); the op-by-op refinement of the two-direction model (C06_duplex_full) is stated, not proved: it is covered by the correspondence harness (real Stream.ReleaseReadAndReuse, echo through the adopted slice).",
     "level_note": "Trusted: coqc kernel; the hand-written model is tied to /repo by sampled differential runs (sizes relative to slice capacities, exhaustion, fallback, empty slices in chains); negative sizes and uint32 truncation of sizes are outside the model; sequential (one writer, one reader per direction; the lock-free allocator is C01/C02); Stream.Flush is mirrored without queue/socket (level (i)).",
 }
+
+SWITCH_FILE = os.path.join(core.COQ, "theories", "Gen", "SwitchC06.v")
+CONJ_LEN0 = "s.recvBuf.len == 0"
+CONJ_ONE = "s.recvBuf.sliceList.size() == 1"
+
+
+def scan_reuse():
+    """Translator (mechanism G) for the swap decision of Stream.ReleaseReadAndReuse in stream.go.
+    Returns ((need_len0, need_one), error).  The body must be exactly
+        s.recvBuf.releasePreviousReadAndReserve()
+        if <conjunction of the two known tests> { s.recvBuf, s.sendBuf = s.sendBuf, s.recvBuf }
+    anything else is an unknown shape (broken correspondence)."""
+    try:
+        src = open(os.path.join(core.REPO, "stream.go")).read()
+    except OSError as ex:
+        return None, "cannot read stream.go: %s" % ex
+    m = re.search(r"func \(s \*Stream\) ReleaseReadAndReuse\(\) \{(.*?)\n}\n", src, re.S)
+    if not m:
+        return None, "cannot find Stream.ReleaseReadAndReuse in stream.go"
+    body = re.sub(r"/\*.*?\*/", "", m.group(1), flags=re.S)
+    body = re.sub(r"//[^\n]*", "", body)
+    stmts = [l.strip() for l in body.splitlines() if l.strip()]
+    if len(stmts) != 4 or stmts[0] != "s.recvBuf.releasePreviousReadAndReserve()" or stmts[3] != "}" \
+            or stmts[2] != "s.recvBuf, s.sendBuf = s.sendBuf, s.recvBuf":
+        return None, "Stream.ReleaseReadAndReuse no longer has the shape the model mirrors (release; if cond { swap }): %r" % (stmts,)
+    mm = re.match(r"^if (.*) \{$", stmts[1])
+    if not mm:
+        return None, "Stream.ReleaseReadAndReuse: unknown swap statement %r" % stmts[1]
+    conj = [c.strip() for c in mm.group(1).split("&&")]
+    if not conj or any(c not in (CONJ_LEN0, CONJ_ONE) for c in conj) or len(set(conj)) != len(conj):
+        return None, "Stream.ReleaseReadAndReuse: swap condition %r is not a conjunction of the two known tests" % mm.group(1)
+    return (CONJ_LEN0 in conj, CONJ_ONE in conj), None
+
+
+def write_switch(sw):
+    txt = ("(* GENERATED from /repo's stream.go by props/C06.py (mechanism G for the swap decision of\n"
+           "   Stream.ReleaseReadAndReuse, used by Model/LinkedBuffer.dstep). Do not edit. *)\n"
+           "(* true: the swap requires recvBuf.len == 0 *)\n"
+           "Definition sw_reuse_needs_len0 : bool := %s.\n"
+           "(* true: the swap requires recvBuf.sliceList.size() == 1 *)\n"
+           "Definition sw_reuse_needs_one_slice : bool := %s.\n" % tuple("true" if x else "false" for x in sw))
+    with core.Lock("coq"):
+        old = open(SWITCH_FILE).read() if os.path.exists(SWITCH_FILE) else None
+        if old != txt:
+            with open(SWITCH_FILE, "w") as fh:
+                fh.write(txt)
+
+
+def ensure_switch(run):
+    sw, err = scan_reuse()
+    if err:
+        run.add_corr_break("G: " + err)
+        sw = (True, True)      # the model keeps the shape it was proved for; the harness decides
+    write_switch(sw)
+    return sw
+
 
 KOP = {"WB": "WBytes", "WS": "WString", "WR": "WReserve", "WW": "WWrite"}
 KRD = {"RB": "RBytes", "PK": "RPeek", "DC": "RDiscard", "RS": "RString", "RD": "RRead"}
 
 
 def op_to_coq(o):
+    d = "true" if o.get("d", 0) else "false"
+    if o["k"] == "RU":
+        return "DReuse %s" % d
+    return "DOp %s (%s)" % (d, op1_to_coq(o))
+
+
+def op1_to_coq(o):
     k = o["k"]
     n = o.get("n", 0)
     a = o.get("a", 0)
@@ -34,8 +97,6 @@ def op_to_coq(o):
         return "RByte"
     if k == "RL":
         return "RRelease"
-    if k == "RU":
-        return "RReleaseReuse"
     if k == "CL":
         return "RClose"
     if k == "OA":
@@ -48,8 +109,9 @@ def op_to_coq(o):
 
 
 def obs_to_coq(o):
-    return ("{| o_cls := %s; o_n := %s; o_dlen := %s; o_dhash := %s; o_rlen := %s; o_slen := %s; o_free := %s |}"
+    return ("{| o_cls := %s; o_n := %s; o_dlen := %s; o_dhash := %s; o_rlen := %s; o_slen := %s; o_rlen1 := %s; o_slen1 := %s; o_free := %s |}"
             % (core.z(o["c"]), core.z(o["n"]), core.z(o["dl"]), core.z(o["dh"]), core.z(o["rl"]), core.z(o["sl"]),
+               core.z(o.get("rl1", 0)), core.z(o.get("sl1", 0)),
                core.coq_list(["%s%%Z" % core.z(x) for x in (o.get("fr") or [])])))
 
 
@@ -61,7 +123,8 @@ def case_to_coq(c):
 
 FIELD = {1: "outcome class (ok/error/panic/blocked)", 2: "numeric result", 3: "length of the returned bytes",
          4: "returned bytes", 5: "Len() of the receive buffer", 6: "Len() of the send buffer",
-         7: "per-class free counts", 8: "the model's lease is no longer valid", 9: "length of the run"}
+         7: "per-class free counts", 8: "the model's lease is no longer valid", 9: "length of the run",
+         10: "Len() of the receive buffer of the echo direction", 11: "Len() of the send buffer of the echo direction"}
 
 
 def _eval_chunk(prop, chunk, k, tag):
@@ -192,6 +255,7 @@ def check(run):
     data, gerr = gen.regenerate()
     if gerr:
         run.add_corr_break("G: " + gerr)
+    sw = ensure_switch(run)
     run.proof = core.proof_step(PROP, run.tier)
     n = 400 if run.tier == "quick" else 12000
     n2 = 40 if run.tier == "quick" else 1000
@@ -209,6 +273,7 @@ def check(run):
         "samples": [short_case(c) for c in cases[2:4]],
         "features": feats, "ops": ops, "sizes_relative_to_class_caps": size_distribution(cases),
         "total_ops": sum(len(c["ops"]) for c in cases),
+        "switch_reuse_swap_needs": {"recvBuf.len == 0": sw[0], "sliceList.size() == 1": sw[1]},
         "level_i_histories": sum(1 for c in cases if c.get("mode") != "c06s"),
         "level_ii_histories": sum(1 for c in cases if c.get("mode") == "c06s"),
         "level_ii_note": "level (ii) = real session pair, real Stream.Flush/writeFallback/socket/event loop/handleFallbackData/readMore; "
